@@ -37,6 +37,23 @@ def gen_stream(r, mx):
     n = max(0, base + r.choice([0, 0, 0, 1, -1, 2, 4]))
     n = min(n, 4096)
     style = r.random()
+    if style < 0.22:
+        # COMPOSITE content: stretches of different classes behind one another (a run of one byte value, random bytes, a short period) —
+        # what a sparse file, a disk image or a padded archive looks like; stretch lengths around the multiples of `max` and below it
+        out = b''
+        for _ in range(r.choice([2, 2, 3, 4, 5])):
+            ln = max(0, r.choice([1, 3, mx // 4, mx // 2, mx - 1, mx, mx + 1, 2 * mx, 2 * mx + 3, 3 * mx, 5 * mx]) + r.choice([0, 0, 1, -1, 5]))
+            cls = r.choice(['zero', 'zero', 'ff', 'random', 'random', 'period'])
+            if cls == 'zero':
+                out += bytes(ln)
+            elif cls == 'ff':
+                out += b'\xff' * ln
+            elif cls == 'random':
+                out += r.randbytes(ln)
+            else:
+                blk = r.randbytes(r.choice([1, 2, 4, 8]))
+                out += (blk * (ln // len(blk) + 1))[:ln]
+        return out[:6144]
     if style < 0.6:
         return r.randbytes(n)
     if style < 0.75:
@@ -48,8 +65,23 @@ def gen_stream(r, mx):
 
 
 def gen_segmentation(r, s):
-    style = r.choice(['single', 'equal', 'bytes', 'empties', 'random', 'random'])
-    if style == 'single' or not s:
+    style = r.choice(['single', 'equal', 'bytes', 'empties', 'random', 'random', 'runs'])
+    if style == 'runs' and s:
+        # piece boundaries where the content changes its class (the end / start of a run of ≥ 8 equal bytes), some of them moved a little
+        marks, i = [], 0
+        while i < len(s):
+            j = i
+            while j < len(s) and s[j] == s[i]:
+                j += 1
+            if j - i >= 8:
+                marks += [i, j]
+            i = j
+        cuts = sorted({min(len(s), max(0, m + r.choice([0, 0, 0, 1, -1, 4, -4]))) for m in marks if r.random() < 0.8} | ({r.randrange(len(s))} if r.random() < 0.5 else set()))
+        ps, last = [], 0
+        for c in cuts + [len(s)]:
+            ps.append(s[last:c])
+            last = c
+    elif style == 'single' or not s:
         ps = [s]
     elif style == 'equal':
         k = r.choice([1, 2, 3, 4, 7, 8, 16, 64])
